@@ -1,6 +1,6 @@
 (* C16  Exactly one well-formed RESP reply per command, in order.  Statements only. *)
 From Nodis Require Import Base.Bytes Model.Num Model.FMap Model.Db Model.Api Model.Handlers Model.Conn
-     Proofs.ReplyProofs Proofs.HandlerReplyProofs.
+     Proofs.ReplyProofs Proofs.HandlerReplyProofs Proofs.PipelineProofs.
 From Coq Require Import ZArith List Bool.
 Local Open Scope Z_scope.
 
@@ -33,6 +33,39 @@ Theorem C16_every_handler : forall name h,
   lookup_cmd name cmd_table = Some h -> handler_one h.
 Proof. exact table_one. Qed.
 Print Assumptions C16_every_handler.
+
+(* Histories.  A pipeline of k commands, on any connections, each in any MULTI/WATCH state, served one
+   after the other (the model is outside its domain only for the commands it declares unmodelled):
+   the reply stream is the concatenation of k values, the i-th written by the i-th command - a reader
+   expecting k values has consumed the whole stream and nothing else ([consume k _ = Some 0]). *)
+Theorem C16_pipeline : forall rs s s' replies,
+  server_ok s -> serve_all rs s = Some (s', replies) ->
+  length replies = length rs /\ Forall (fun a => one_value a = true) replies /\
+  consume (Z.of_nat (length rs)) (concat replies) = Some 0 /\ server_ok s'.
+Proof. exact pipeline_values. Qed.
+Print Assumptions C16_pipeline.
+
+(* k commands followed by a marker: the client reads exactly k values and then the marker's reply *)
+Theorem C16_pipeline_then_marker : forall rs m s s' replies,
+  server_ok s -> serve_all (rs ++ [m]) s = Some (s', replies) ->
+  exists front last, replies = front ++ [last] /\ length front = length rs /\
+    consume (Z.of_nat (length rs)) (concat front) = Some 0 /\ one_value last = true.
+Proof. exact pipeline_marker. Qed.
+Print Assumptions C16_pipeline_then_marker.
+
+(* the premise is met by a real pipeline: RPUSH k a b ; MGET k k (wrong type: two nils) ; MULTI ; LRANGE k 0 -1 ; EXEC ; PING *)
+Example C16_pipeline_nonvacuous :
+  match serve_all
+    [ {| r_conn := 0%nat; r_name := cn [82;80;85;83;72]; r_args := [[x6b]; [x61]; [x62]]; r_now := 5 |};
+      {| r_conn := 0%nat; r_name := cn [77;71;69;84]; r_args := [[x6b]; [x6b]]; r_now := 5 |};
+      {| r_conn := 0%nat; r_name := cn [77;85;76;84;73]; r_args := []; r_now := 5 |};
+      {| r_conn := 0%nat; r_name := cn [76;82;65;78;71;69]; r_args := [[x6b]; [x30]; [x2d; x31]]; r_now := 5 |};
+      {| r_conn := 0%nat; r_name := cn [69;88;69;67]; r_args := []; r_now := 5 |};
+      {| r_conn := 0%nat; r_name := cn [80;73;78;71]; r_args := []; r_now := 5 |} ] (server_new false) with
+  | Some (_, replies) => map (@length wact) replies = [1; 3; 1; 1; 4; 1]%nat
+  | None => False
+  end.
+Proof. vm_compute. reflexivity. Qed.
 
 (* grammar facts used by the theorem: arrays of n leaves, cursors, pairs *)
 Theorem C16_array_shapes : forall l h ws its,
